@@ -179,37 +179,36 @@ Proof.
   repeat split; reflexivity.
 Qed.
 
-Lemma meta_status_3_scalar c : meta_r_status 3 1 c = ROk.
-Proof. destruct c; vm_compute; reflexivity. Qed.
-
-(* what holds on the tree as it is: 3-D scalar images *)
-Lemma meta_roundtrip_3_scalar (c : bool) (x : image) :
-  wf_image 3 x -> i_chan x = 1%nat -> In (i_type x) torch_types ->
-  exists f, write_meta 3 c x = Some f /\ read_meta f = Some x.
+Lemma meta_geo_ok_2 : meta_geo_ok 2.
 Proof.
-  intros H HC Ht. apply meta_roundtrip_cond; auto.
-  - rewrite HC. apply meta_status_3_scalar.
-  - apply meta_geo_ok_3.
+  intros n o s d Hn Ho Hs Hd Hrows.
+  apply len2 in Hn; destruct Hn as (n0 & n1 & ->).
+  apply len2 in Ho; destruct Ho as (o0 & o1 & ->).
+  apply len2 in Hs; destruct Hs as (s0 & s1 & ->).
+  apply len2 in Hd; destruct Hd as (r0 & r1 & ->).
+  inv_forall Hrows.
+  repeat match goal with Hq : length ?r = 2%nat |- _ => apply len2 in Hq; destruct Hq as (? & ? & ->) end.
+  repeat split; reflexivity.
 Qed.
 
-(* what fails on the tree as it is: every 2-D image and every multi-channel image is written but not read back *)
-Lemma meta_read_fails_2d (c : bool) (x : image) (f : mfile K A) :
-  write_meta 2 c x = Some f -> read_meta f = None.
+Lemma meta_geo_ok_all D : D = 2%nat \/ D = 3%nat -> meta_geo_ok D.
+Proof. intros [-> | ->]; [apply meta_geo_ok_2 | apply meta_geo_ok_3]. Qed.
+
+(* the reader accepts every configuration: D in {2,3}, scalar or multi-channel, compressed or not *)
+Lemma meta_status_ok D C c : D = 2%nat \/ D = 3%nat -> meta_r_status D C c = ROk.
 Proof.
-  unfold write_meta. destruct (meta_w_type (i_type x)); [|discriminate]. intro E; injection E as <-.
-  unfold read_meta. cbn [m_ndims m_nchan m_compressed].
-  replace (meta_r_status 2 (i_chan x) c) with EValue; [reflexivity|].
-  unfold meta_r_status, cclass. destruct (Nat.eqb (i_chan x) 1), c; vm_compute; reflexivity.
+  intros HD. unfold meta_r_status, cclass.
+  destruct HD as [-> | ->]; destruct (Nat.eqb C 1), c; vm_compute; reflexivity.
 Qed.
 
-Lemma meta_read_fails_multichannel (D : nat) (c : bool) (x : image) (f : mfile K A) :
-  D = 2%nat \/ D = 3%nat -> (2 <= i_chan x)%nat -> write_meta D c x = Some f -> read_meta f = None.
+(* FULL native MetaImage round trip: D in {2,3}, every channel count, size, grid, torch element type, compressed or not *)
+Lemma meta_roundtrip (D : nat) (c : bool) (x : image) :
+  D = 2%nat \/ D = 3%nat -> wf_image D x -> In (i_type x) torch_types ->
+  exists f, write_meta D c x = Some f /\ read_meta f = Some x.
 Proof.
-  intros HD HC. unfold write_meta. destruct (meta_w_type (i_type x)); [|discriminate]. intro E; injection E as <-.
-  unfold read_meta. cbn [m_ndims m_nchan m_compressed].
-  assert (Hc : Nat.eqb (i_chan x) 1 = false) by (apply Nat.eqb_neq; lia).
-  unfold meta_r_status, cclass. rewrite Hc.
-  destruct HD as [-> | ->]; destruct c; vm_compute; reflexivity.
+  intros HD H Ht. apply meta_roundtrip_cond; auto.
+  - apply meta_status_ok, HD.
+  - apply meta_geo_ok_all, HD.
 Qed.
 
 (* files written by ITK (its MetaImage convention) and read by the library *)
@@ -234,17 +233,29 @@ Proof.
   destruct HD as [-> | ->]; cbn [sel] in *; rewrite G1, G2, G3, Hdir; rewrite chan_first_last by exact Hdat; reflexivity.
 Qed.
 
-Lemma itk_mha_read_3_scalar (c : bool) (x : image) :
-  wf_image 3 x -> i_chan x = 1%nat -> In (i_type x) torch_types ->
-  exists f, itk_write_mha 3 c (write_sitk 3 x) = Some f /\ read_meta f = Some x.
+(* FULL: a .mha written by ITK is read back by the library, D in {2,3}, any channel count *)
+Lemma itk_mha_read (D : nat) (c : bool) (x : image) :
+  D = 2%nat \/ D = 3%nat -> wf_image D x -> In (i_type x) torch_types ->
+  exists f, itk_write_mha D c (write_sitk D x) = Some f /\ read_meta f = Some x.
 Proof.
-  intros H HC1 Ht. pose proof H as H'. explode3 x H. cbn [i_chan] in HC1.
-  apply itk_mha_read_cond; auto; cbn [i_chan i_size i_origin i_spacing sel]; try reflexivity.
-  - rewrite HC1. apply meta_status_3_scalar.
-  - intros d' Hd' Hrows'. apply len3 in Hd'; destruct Hd' as (q0 & q1 & q2 & ->). inv_forall Hrows'.
-    repeat match goal with Hq : length ?r = 3%nat |- _ => apply len3 in Hq; destruct Hq as (? & ? & ? & ->) end.
-    reflexivity.
+  intros HD H Ht. pose proof H as H'. destruct HD as [-> | ->].
+  - explode2 x H.
+    apply itk_mha_read_cond; auto; cbn [i_chan i_size i_origin i_spacing sel]; try reflexivity.
+    + apply meta_status_ok; auto.
+    + intros d' Hd' Hrows'. apply len2 in Hd'; destruct Hd' as (q0 & q1 & ->). inv_forall Hrows'.
+      repeat match goal with Hq : length ?r = 2%nat |- _ => apply len2 in Hq; destruct Hq as (? & ? & ->) end.
+      reflexivity.
+  - explode3 x H.
+    apply itk_mha_read_cond; auto; cbn [i_chan i_size i_origin i_spacing sel]; try reflexivity.
+    + apply meta_status_ok; auto.
+    + intros d' Hd' Hrows'. apply len3 in Hd'; destruct Hd' as (q0 & q1 & q2 & ->). inv_forall Hrows'.
+      repeat match goal with Hq : length ?r = 3%nat |- _ => apply len3 in Hq; destruct Hq as (? & ? & ? & ->) end.
+      reflexivity.
 Qed.
+
+(* data handed to the writer without a channel dimension gives exactly the file of the same data with C = 1 *)
+Lemma meta_nochannel_ok : gen_meta_w_nochannel_ok = true /\ gen_meta_w_nochannel_same_as_c1 = true.
+Proof. split; reflexivity. Qed.
 
 (* ---------------------------------------------------------------------------------------------- *)
 (* NIfTI                                                                                           *)
